@@ -940,6 +940,11 @@ impl<'p> Emitter<'p> {
                     self.semi();
                 }
                 BI::Let { name, value } => {
+                    // `name{7-4}`: only some bits of the field are overridden (the field, its type and its hint stay what they are)
+                    let (name, bits_suffix) = match name.find('{') {
+                        Some(i) => (&name[..i].to_string(), name[i..].to_string()),
+                        None => (name, String::new()),
+                    };
                     self.w("let ");
                     let found = self.find_field(rec, name);
                     let s = self.pos();
@@ -959,11 +964,13 @@ impl<'p> Emitter<'p> {
                         // keep denoting the original declaration
                         let _ = orig;
                     }
+                    self.w(&bits_suffix);
                     self.w(" = ");
                     let s0 = self.pos();
                     self.expr(value);
                     let e0 = self.pos();
-                    if let Some(t) = let_ty {
+                    // (the value of a partial override is judged against the selected bits, which no slot models)
+                    if let Some(t) = let_ty.filter(|_| bits_suffix.is_empty()) {
                         self.out.slots.push(Slot { file: self.file, span: (s0, e0), expected: t, what: "field override" });
                     }
                     self.semi();
